@@ -193,9 +193,6 @@ func TestC09(t *testing.T) {
 	prop := vh.PropEnv("C09")
 	r := vh.New(t, prop, "merge")
 	okFn := "Merge.ok"
-	if prop == "C07" {
-		okFn = "Merge.ok_total"
-	}
 	r.Coq("From Verif Require Import Base.GoFloat Cobalt.Merge.\nClose Scope Z_scope.", "Merge.case", "Merge.agree", okFn)
 	g := gen{r}
 	r.Shard = 90
